@@ -222,11 +222,17 @@ def audit_props(files):
     returns (list of (thm, axioms or None-if-missing), raw output)"""
     thms, imports = [], []
     for f in files:
+        flt = None
+        if ":" in f:
+            f, flt = f.split(":", 1)
         p = os.path.join(LEAN, "NloptModel", "Props", f + ".lean")
         if not os.path.exists(p):
             continue
         imports.append("import NloptModel.Props." + f)
-        thms += theorems_of(p)
+        names = theorems_of(p)
+        if flt:
+            names = [t for t in names if re.search(flt, t.split(".")[-1])]
+        thms += names
     if not thms:
         return [], "no Props files"
     src = "\n".join(imports) + "\n" + "\n".join("#print axioms %s" % t for t in thms) + "\n"
